@@ -130,6 +130,23 @@ def make_runner(c, f, mutate, sink, fixed=None, case=None):
                     pass
         args = [env[p] for p in params if p in env]
         kw = {}
+        if c.cuts:
+            import ast as _ast
+
+            def cut_hook(fr, stmt):
+                try:
+                    text = _ast.unparse(stmt)
+                except Exception:
+                    return
+                for k_, (prefix, fn_) in enumerate(c.cuts):
+                    if text.startswith(prefix):
+                        vals = dict(fr.env)
+                        vals.update({kk: vv for kk, vv in values.items() if kk not in vals})
+                        for j_, cl in enumerate(clauses(eval_cfn(ip, fn_, vals, old_heap))):
+                            z_ = ip.zbool(cl)
+                            st.oblige('cut', "%d.%d after %s" % (k_, j_, prefix[:40]), z_)
+                            st.assume(z_)
+            ip.cut_hook = cut_hook
         if c.at_return is not None:
             rnode, _ = function_ast(c.at_return)
             rnames = [a_.arg for a_ in rnode.args.args]
